@@ -92,14 +92,16 @@ func (t *toks) pquery() *proto.Query {
 
 // settle waits (bounded) for the goroutine count to return to the baseline.
 func settle(base int) bool {
-	for i := 0; i < 200; i++ {
+	// patient enough for a loaded machine (a lexer goroutine that is about to exit), cheap when
+	// nothing is left behind; after 40 leaks the caller stops waiting
+	for i := 0; i < 400; i++ {
 		if runtime.NumGoroutine() <= base {
 			return true
 		}
-		if i < 20 {
+		if i < 100 {
 			runtime.Gosched()
 		} else {
-			time.Sleep(time.Duration(i/20) * time.Millisecond)
+			time.Sleep(time.Millisecond)
 		}
 	}
 	return runtime.NumGoroutine() <= base
